@@ -137,7 +137,11 @@ Deliver(p, sg, keep) ==      \* p receives; with keep (duplication) a copy stays
   /\ LET r == ArriveRes(p, sg) IN
      /\ tcb' = [tcb EXCEPT ![p] = r.t]
      /\ listen' = [listen EXCEPT ![p] = r.l]
-     /\ wire' = [wire EXCEPT ![Peer(p)] = IF keep THEN @ ELSE @ \ {sg}, ![p] = @ \cup r.resp]
+     \* When p's TCB is deleted, text that this incarnation still has in the network can no longer be mistaken for text
+     \* of p's next incarnation: the model numbers every incarnation from the same relative ISS, the code (and RFC 9293
+     \* 3.4.1) gives successive incarnations initial sequence numbers far enough apart.  Control segments stay.
+     /\ wire' = [wire EXCEPT ![Peer(p)] = IF keep THEN @ ELSE @ \ {sg},
+                             ![p] = (IF Has(p) /\ r.t = Nil THEN {s \in @ : s.len = 0} ELSE @) \cup r.resp]
   /\ edge' = [edge EXCEPT ![p] = Max(@, Adv(sg))]
   /\ budget' = IF keep THEN [budget EXCEPT !.dups = @ - 1] ELSE budget
   /\ UNCHANGED <<opened, sent, got, okstream, closed, maxend>>
